@@ -69,6 +69,13 @@ Definition ops : list (string * (tree -> tree)) := [
       ofB (collapse_ok_b (tZs (tNth t 0)) (tBools (tNth t 1)) (tZ (tNth t 2)) (tZs (tNth t 3))));
   ("spec.rect", fun t => ofB (rect_b (tList tStr t)));
   ("spec.expand_exact", fun t => ofB (expand_exact_b (tZ (tNth t 0)) (tList tStr (tNth t 1))));
+  ("spec.expand_exact_dom", fun t =>   (* [[[stale, capmin], opts, cols, avail], lines]: guard = the theorem's domain *)
+      let d := tNth t 0 in
+      let o := tOpts (tNth d 1) in
+      ofB (if expand_dom_b o (tCols o (tNth d 2)) (tZ (tNth d 3))
+           then expand_exact_b (target_width o (tZ (tNth d 3))) (tList tStr (tNth t 1)) else true));
+  ("expand_dom", fun t =>
+      let o := tOpts (tNth t 1) in ofB (expand_dom_b o (tCols o (tNth t 2)) (tZ (tNth t 3))));
   ("spec.rows_ordered", fun t =>
       ofB (rows_ordered_b (tList tStr (tNth t 0)) (tB (tNth t 1)) (tList tStr (tNth t 2))));
   ("spec.cells_in_columns", fun t =>
